@@ -14,6 +14,18 @@ push), and the client is shown to hold the new content afterwards.
 for the reasons list `[.headless]` the single-key ServiceEntry request skips CDS, so the same frame
 statement quantified over all reasons lists is FALSE for this (and for any ServiceEntry reading)
 generator.
+
+Two more instances follow:
+
+* **a waypoint** (`wp*`): the CDS output of a waypoint reads the content of an ATTACHED address; the
+  event of that address carries the waypoint reference (`wpAtt`), the theorem applies
+  (`wp_converges`, `wp_held_value`), and WITHOUT the references the frame is false for this
+  generator (`wp_frame_needs_wrefs`) - which is why `reqOfV2` carries them;
+* **a configuration-dependent view with a genuinely partial rebuild** (`cfg*`): a Sidecar resource
+  decides whether the proxy imports a second service, the snapshot refreshes only the announced
+  keys, and the history changes that service WHILE IT IS OUT OF SCOPE (the push is skipped) and
+  then brings it back into scope: the client ends with the current content (`cfg_converges`,
+  `cfg_held_value`, `cfg_decisions`).
 -/
 namespace IstioModel.C01.InstantiationExample
 open IstioModel.C01 ProtocolV2
@@ -38,6 +50,9 @@ def exBuild : World Key → World Key := id
 
 /-- the partial rebuild takes the current world (so it trivially equals a from-scratch build) -/
 def exRebuild : World Key → List Key → Bool → World Key → World Key := fun _ _ _ w => w
+
+/-- no waypoint references: the example proxy is a sidecar -/
+def exAtt : Key → List WRef := fun _ => []
 
 /-- every proxy, in every world, looks like `exProxy` -/
 def exView : World Key → Unit → Proxy := fun _ _ => exProxy
@@ -84,7 +99,7 @@ theorem ex_pushes (rs : List Reason) (h : ∀ x ∈ rs, OrdinaryReason x) (k : K
 /-- `ModelFrame` holds for the example: if every changed key would be skipped on its own, neither
     the ServiceEntry nor the DestinationRule changed (their single-key requests are pushed), so the
     CDS output is the same; the other types are constant. -/
-theorem ex_modelFrame : ModelFrame exRoot exView exGen exBuild := by
+theorem ex_modelFrame : ModelFrame exRoot exAtt exView exGen exBuild := by
   intro rs hrs wl w' p t hskip
   by_cases ht : t = .cds
   · subst ht
@@ -105,7 +120,7 @@ theorem ex_refreshOK : RefreshOK exView :=
     CDS output reads the ServiceEntry. -/
 theorem ex_frame_needs_restriction :
     ¬ (∀ (rs : List Reason) (wl w' : World Key) (p : Unit) (t : XType),
-        (∀ k, wl k ≠ w' k → ¬ SingleKeyRelAt exRoot rs exView wl w' k p t) →
+        (∀ k, wl k ≠ w' k → ¬ SingleKeyRelAt exRoot exAtt rs exView wl w' k p t) →
         exGen (exBuild wl) p t = exGen (exBuild w') p t) := by
   intro h
   have e := h [.headless] exW0 (World.set exW0 seKey 1) () .cds (by
@@ -133,7 +148,7 @@ theorem exHist_carries : StepsCarry OrdinaryReason exHist := by
 
 /-- the final state of the history under the modelled decision -/
 def exFinal : Sys Key Unit XType Nat (World Key) Reason :=
-  run exRebuild exGen (modelDecV2 exRoot exView) (init exBuild exW0 exH0) exHist
+  run exRebuild exGen (modelDecV2 exRoot exAtt exView) (init exBuild exW0 exH0) exHist
 
 /-- **`convergence_model` applied.**  The history carries ordinary reasons, ends quiescent with the
     proxy connected and the ServiceEntry changed, and - by `convergence_model`, all of whose
@@ -144,7 +159,7 @@ theorem ex_converges :
     ∀ p t, exFinal.conn p = true → exFinal.held p t = exGen (exBuild exFinal.world) p t := by
   have hq : Quiescent exFinal := ⟨rfl, rfl, fun _ => rfl, fun _ => rfl⟩
   exact ⟨exHist_carries, hq, rfl, by decide,
-    convergence_model exRoot exView exGen exBuild exRebuild ex_rebuildOK ex_modelFrame exW0 exH0
+    convergence_model exRoot exAtt exView exGen exBuild exRebuild ex_rebuildOK ex_modelFrame exW0 exH0
       exHist exHist_carries hq⟩
 
 /-- The client really received the new content: CDS is 5 + 3 (not the initial 7, not the 0 + 0
@@ -153,22 +168,22 @@ theorem ex_held_value : exFinal.held () .cds = 8 ∧ exFinal.held () .eds = 0 :=
 
 /-- the state after the first `n` steps of the history -/
 def exAt (n : Nat) : Sys Key Unit XType Nat (World Key) Reason :=
-  run exRebuild exGen (modelDecV2 exRoot exView) (init exBuild exW0 exH0) (exHist.take n)
+  run exRebuild exGen (modelDecV2 exRoot exAtt exView) (init exBuild exW0 exH0) (exHist.take n)
 
 /-- Both branches of the decision are exercised: the first request (ServiceEntry and
     DestinationRule, not forced) is pushed for CDS by the modelled decision, the second (Endpoints)
     is skipped for CDS and pushed for EDS. -/
 theorem ex_decisions :
     (∃ r, (exAt 5).infl () = some r ∧ r.forced = false ∧ r.reasons = [.config, .config] ∧
-      modelDecV2 exRoot exView () .cds ((exAt 5).last ()) r = true) ∧
+      modelDecV2 exRoot exAtt exView () .cds ((exAt 5).last ()) r = true) ∧
     (∃ r, (exAt 9).infl () = some r ∧ r.forced = false ∧ r.reasons = [.endpoint] ∧
-      modelDecV2 exRoot exView () .cds ((exAt 9).last ()) r = false ∧
-      modelDecV2 exRoot exView () .eds ((exAt 9).last ()) r = true) := by
+      modelDecV2 exRoot exAtt exView () .cds ((exAt 9).last ()) r = false ∧
+      modelDecV2 exRoot exAtt exView () .eds ((exAt 9).last ()) r = true) := by
   refine ⟨⟨_, rfl, rfl, rfl, ?_⟩, ⟨_, rfl, rfl, rfl, ?_, ?_⟩⟩ <;> decide
 
 /-- the final state of the same history under the decision that keeps unrefreshed proxy state -/
 def exFinalR : Sys Key Unit XType Nat (World Key) Reason :=
-  run exRebuild exGen (modelDecV2R exRoot exView) (init exBuild exW0 exH0) exHist
+  run exRebuild exGen (modelDecV2R exRoot exAtt exView) (init exBuild exW0 exH0) exHist
 
 /-- **`convergence_model_refresh` applied** to the same instance (`RefreshOK` holds as well). -/
 theorem ex_converges_refresh :
@@ -176,7 +191,273 @@ theorem ex_converges_refresh :
     ∀ p t, exFinalR.conn p = true → exFinalR.held p t = exGen (exBuild exFinalR.world) p t := by
   have hq : Quiescent exFinalR := ⟨rfl, rfl, fun _ => rfl, fun _ => rfl⟩
   exact ⟨hq, rfl, by decide,
-    convergence_model_refresh exRoot exView exGen exBuild exRebuild ex_rebuildOK ex_modelFrame
+    convergence_model_refresh exRoot exAtt exView exGen exBuild exRebuild ex_rebuildOK ex_modelFrame
       ex_refreshOK exW0 exH0 exHist exHist_carries hq⟩
+
+/-! ## A waypoint: the references of the attached address travel with the event -/
+
+/-- a waypoint (not east-west) in network 0 that serves the address 9 -/
+def wpProxy : Proxy := { ty := .waypoint, network := 0, addrs := [9] }
+
+/-- the key of an address (a workload) attached to the waypoint -/
+def addrKey : Key := { kind := .address, name := 3, ns := 1 }
+
+/-- the reference of `wpProxy` as the ambient index records it on the address -/
+def wpRef : WRef := { ns := 1, host := none, net := 0, addr := 9 }
+
+/-- an event of the attached address carries the waypoint's reference; no other key carries one -/
+def wpAtt : Key → List WRef := fun k => if k = addrKey then [wpRef] else []
+
+/-- every proxy, in every world, looks like `wpProxy` -/
+def wpView : World Key → Unit → Proxy := fun _ _ => wpProxy
+
+/-- the waypoint's CDS output reads the CONTENT of the attached address -/
+def wpGen : World Key → Unit → XType → Nat := fun w _ t => if t = .cds then w addrKey else 0
+
+/-- With its reference attached, the single-key request of the address is pushed for CDS to the
+    waypoint, whatever the reasons. -/
+theorem wp_pushes (rs : List Reason) :
+    pushDecision exRoot .cds { keys := [addrKey], reasons := rs, forced := false, wrefs := wpAtt addrKey }
+      (decidingProxy wpProxy wpProxy) = true := rfl
+
+/-- `ModelFrame` holds for the waypoint instance. -/
+theorem wp_modelFrame : ModelFrame exRoot wpAtt wpView wpGen exBuild := by
+  intro rs _ wl w' p t hskip
+  by_cases ht : t = .cds
+  · subst ht
+    have hk : wl addrKey = w' addrKey :=
+      Decidable.byContradiction fun hne => hskip addrKey hne (wp_pushes rs)
+    show (if XType.cds = .cds then wl addrKey else 0) = (if XType.cds = .cds then w' addrKey else 0)
+    rw [hk]
+  · show (if t = .cds then wl addrKey else 0) = (if t = .cds then w' addrKey else 0)
+    rw [if_neg ht, if_neg ht]
+
+/-- **Why the references are carried**: with no references on the events (`att := fun _ => []`) the
+    frame is FALSE for this generator - the address request is skipped for every type of a
+    waypoint, yet its clusters read the address. -/
+theorem wp_frame_needs_wrefs : ¬ ModelFrame exRoot (fun _ => []) wpView wpGen exBuild := by
+  intro h
+  have e := h [.config] (by intro x hx; simp at hx; subst hx; simp [OrdinaryReason])
+    exW0 (World.set exW0 addrKey 1) () .cds (by
+    intro k hk
+    by_cases e : k = addrKey
+    · rw [e]; unfold SingleKeyRelAt; decide
+    · exact absurd (by simp [World.set, e]) hk)
+  revert e
+  decide
+
+/-- the waypoint connects, the attached address changes, the request is flushed, dequeued, pushed -/
+def wpHist : List (Step Key Unit Reason) :=
+  [.connect (), .change addrKey 4 false .config, .flush, .dequeue (), .pushDone ()]
+
+/-- every change of the history carries an ordinary reason -/
+theorem wpHist_carries : StepsCarry OrdinaryReason wpHist := by
+  intro st hst
+  simp only [wpHist, List.mem_cons, List.not_mem_nil, or_false] at hst
+  rcases hst with e | e | e | e | e <;> rw [e] <;> simp [Step.carries, OrdinaryReason]
+
+/-- the final state of the waypoint history -/
+def wpFinal : Sys Key Unit XType Nat (World Key) Reason :=
+  run exRebuild wpGen (modelDecV2 exRoot wpAtt wpView) (init exBuild exW0 exH0) wpHist
+
+/-- **`convergence_model` applied to a waypoint.** -/
+theorem wp_converges :
+    Quiescent wpFinal ∧ wpFinal.conn () = true ∧
+    ∀ p t, wpFinal.conn p = true → wpFinal.held p t = wpGen (exBuild wpFinal.world) p t := by
+  have hq : Quiescent wpFinal := ⟨rfl, rfl, fun _ => rfl, fun _ => rfl⟩
+  exact ⟨hq, rfl,
+    convergence_model exRoot wpAtt wpView wpGen exBuild exRebuild ex_rebuildOK wp_modelFrame exW0 exH0
+      wpHist wpHist_carries hq⟩
+
+/-- the waypoint ends with the new content of the address (pushed by the modelled decision, not by
+    the connect); the same history WITHOUT references leaves it with the stale 0 -/
+theorem wp_held_value :
+    wpFinal.held () .cds = 4 ∧
+    (run exRebuild wpGen (modelDecV2 exRoot (fun _ => []) wpView) (init exBuild exW0 exH0) wpHist).held () .cds = 0 := by
+  decide
+
+/-! ## A configuration-dependent view and a genuinely partial rebuild -/
+
+/-- the key of the Sidecar resource of the proxy's namespace -/
+def scKey : Key := { kind := .sidecar, name := 7, ns := 1 }
+
+/-- a second ServiceEntry key (name 6, namespace 1) -/
+def se2Key : Key := { kind := .serviceEntry, name := 6, ns := 1 }
+
+/-- the Sidecar resource at content 0 imports both services, at any other content only the first -/
+def imports2 (w : World Key) : Bool := Nat.beq (w scKey) 0
+
+/-- the proxy with the Sidecar scope computed from the Sidecar resource: its config dependencies
+    are the Sidecar key, the first service and - if imported - the second -/
+def cfgProxy (b : Bool) : Proxy :=
+  { ty := .sidecar,
+    scope := some { ns := 1, deps := if b then [scKey, seKey, se2Key] else [scKey, seKey],
+                    services := if b then [5, 6] else [5] } }
+
+/-- the proxy's view of a world -/
+def cfgView : World Key → Unit → Proxy := fun w _ => cfgProxy (imports2 w)
+
+/-- CDS reads the first service and - if the Sidecar resource imports it - the second one; the
+    generator reads the SNAPSHOT -/
+def cfgGen : World Key → Unit → XType → Nat :=
+  fun s _ t => if t = .cds then s seKey + (if imports2 s then s se2Key else 0) else 0
+
+/-- a PARTIAL rebuild: unless Forced, only the announced keys are taken from the current world, the
+    rest of the snapshot is kept -/
+def cfgRebuild : World Key → List Key → Bool → World Key → World Key :=
+  fun s keys forced w => if forced then w else fun k => if k ∈ keys then w k else s k
+
+/-- the partial rebuild equals a from-scratch build when it is told every changed key -/
+theorem cfg_rebuildOK : RebuildOK exBuild cfgRebuild := by
+  intro w0 w keys forced h
+  cases forced with
+  | true => rfl
+  | false =>
+    have hc : ∀ k, w0 k ≠ w k → k ∈ keys := by
+      rcases h with h | h
+      · cases h
+      · exact h
+    funext k
+    show (if k ∈ keys then w k else w0 k) = w k
+    by_cases hm : k ∈ keys
+    · rw [if_pos hm]
+    · rw [if_neg hm]
+      exact Decidable.byContradiction fun hne => hm (hc k hne)
+
+/-- it is genuinely partial: told nothing, it keeps the old snapshot -/
+theorem cfg_rebuild_partial : cfgRebuild exW0 [] false (World.set exW0 seKey 1) seKey = 0 := by decide
+
+/-- A single-key request that passes the per-proxy filter of a sidecar unchanged and whose key CDS
+    keeps is pushed for CDS, whatever the (ordinary) reasons. -/
+theorem pushes_of (p : Proxy) (k : Key) (rs : List Reason) (hrs : ∀ x ∈ rs, OrdinaryReason x)
+    (hf : proxyNeedsPush p exRoot { keys := [k], reasons := rs, forced := false } = ([k], true))
+    (hty : p.ty = .sidecar) (hkeep : cdsKeep p k = true) :
+    pushDecision exRoot .cds { keys := [k], reasons := rs, forced := false } p = true := by
+  simp only [pushDecision, hf]
+  show (true && (cdsNeedsPush { keys := [k], reasons := rs, forced := false } p).2) = true
+  rw [cdsNeedsPush_spec _ _ (by simp [xdsNeedsPush, hty]) (by simp [hty]),
+    headlessInit_ordinary [k] rs hrs]
+  simp [hkeep]
+
+/-- The key lemma: the Sidecar key, the first service and - when the CURRENT scope imports it - the
+    second service are pushed for CDS, for every combination of previous and current scope. -/
+theorem cfg_pushes (b b' : Bool) (rs : List Reason) (h : ∀ x ∈ rs, OrdinaryReason x) (k : Key)
+    (hk : k = scKey ∨ k = seKey ∨ (k = se2Key ∧ b' = true)) :
+    pushDecision exRoot .cds { keys := [k], reasons := rs, forced := false, wrefs := exAtt k }
+      (decidingProxy (cfgProxy b') (cfgProxy b)) = true := by
+  rcases hk with rfl | rfl | ⟨rfl, rfl⟩ <;> cases b <;> (try cases b') <;>
+    exact pushes_of _ _ rs h rfl rfl rfl
+
+/-- `ModelFrame` holds for the configuration-dependent view: a key that is skipped on its own for
+    the proxy between two worlds is neither the Sidecar key nor the first service, and it is the
+    second service only if the current scope does not import it - and then (the Sidecar key being
+    unchanged) neither world's generation reads it. -/
+theorem cfg_modelFrame : ModelFrame exRoot exAtt cfgView cfgGen exBuild := by
+  intro rs hrs wl w' p t hskip
+  by_cases ht : t = .cds
+  · subst ht
+    have hsc : wl scKey = w' scKey := Decidable.byContradiction fun hne =>
+      hskip scKey hne (cfg_pushes (imports2 wl) (imports2 w') rs hrs scKey (Or.inl rfl))
+    have hse : wl seKey = w' seKey := Decidable.byContradiction fun hne =>
+      hskip seKey hne (cfg_pushes (imports2 wl) (imports2 w') rs hrs seKey (Or.inr (Or.inl rfl)))
+    have hi : imports2 wl = imports2 w' := by unfold imports2; rw [hsc]
+    show (if XType.cds = .cds then wl seKey + (if imports2 wl then wl se2Key else 0) else 0)
+      = (if XType.cds = .cds then w' seKey + (if imports2 w' then w' se2Key else 0) else 0)
+    rw [hi, hse]
+    cases hb : imports2 w' with
+    | false => rfl
+    | true =>
+      have h2 : wl se2Key = w' se2Key := Decidable.byContradiction fun hne =>
+        hskip se2Key hne (cfg_pushes (imports2 wl) (imports2 w') rs hrs se2Key (Or.inr (Or.inr ⟨rfl, hb⟩)))
+      rw [h2]
+  · show (if t = .cds then _ else 0) = (if t = .cds then _ else 0)
+    rw [if_neg ht, if_neg ht]
+
+/-- a request that announces the Sidecar key makes `computeProxyState` reset the scope -/
+theorem refresh_scope_of_sidecar_key (p : Proxy) (r : Req) (h : scKey ∈ r.keys) :
+    (pushConnectionRefresh p r).scope = true := by
+  have hall : r.keys.all (fun k => k.kind == .endpoints) = false := by
+    apply Bool.eq_false_iff.mpr
+    intro hall
+    have := List.all_eq_true.mp hall scKey h
+    revert this
+    decide
+  have h1 : onlyEndpoints r.keys = false := by unfold onlyEndpoints; rw [hall]; simp
+  have hany : r.keys.any scopeKind = true := List.any_eq_true.mpr ⟨scKey, h, by decide⟩
+  unfold pushConnectionRefresh
+  rw [h1]
+  simp only [Bool.false_eq_true, if_false]
+  rw [computeProxyState_spec]
+  show (r.forced || r.keys.any scopeKind) = true
+  rw [hany]; simp
+
+/-- `RefreshOK` holds for the configuration-dependent view: the scope only depends on the Sidecar
+    key, and a request announcing that key resets the scope; targets and gateways are constant. -/
+theorem cfg_refreshOK : RefreshOK cfgView := by
+  intro wl w' p r _ hcov
+  refine ⟨?_, fun _ => ⟨?_, ?_⟩, fun _ => ?_⟩
+  · intro hs
+    by_cases hsc : wl scKey = w' scKey
+    · show (cfgProxy (imports2 w')).scope = (cfgProxy (imports2 wl)).scope
+      unfold imports2; rw [hsc]
+    · have := refresh_scope_of_sidecar_key (cfgView wl p) r (hcov scKey hsc)
+      rw [hs] at this
+      exact Bool.noConfusion this
+  · cases imports2 w' <;> cases imports2 wl <;> rfl
+  · cases imports2 w' <;> cases imports2 wl <;> rfl
+  · cases imports2 w' <;> cases imports2 wl <;> rfl
+
+/-- The history: connect; the second service changes while imported (pushed); the Sidecar resource
+    stops importing it (pushed - the PREVIOUS scope still holds it); the second service changes again
+    while NOT imported (skipped for this proxy); the Sidecar resource imports it again. -/
+def cfgHist : List (Step Key Unit Reason) :=
+  [.connect (),
+   .change se2Key 4 false .config, .flush, .dequeue (), .pushDone (),
+   .change scKey 1 false .config, .flush, .dequeue (), .pushDone (),
+   .change se2Key 9 false .config, .flush, .dequeue (), .pushDone (),
+   .change scKey 0 false .config, .flush, .dequeue (), .pushDone ()]
+
+/-- every change of the history carries an ordinary reason -/
+theorem cfgHist_carries : StepsCarry OrdinaryReason cfgHist := by
+  intro st hst
+  simp only [cfgHist, List.mem_cons, List.not_mem_nil, or_false] at hst
+  rcases hst with e | e | e | e | e | e | e | e | e | e | e | e | e | e | e | e | e <;> rw [e] <;>
+    simp [Step.carries, OrdinaryReason]
+
+/-- the state after the first `n` steps of the history (decision with the refresh logic) -/
+def cfgAt (n : Nat) : Sys Key Unit XType Nat (World Key) Reason :=
+  run cfgRebuild cfgGen (modelDecV2R exRoot exAtt cfgView) (init exBuild exW0 exH0) (cfgHist.take n)
+
+/-- the final state -/
+def cfgFinal : Sys Key Unit XType Nat (World Key) Reason := cfgAt 17
+
+/-- **`convergence_model_refresh` applied** to the configuration-dependent view over the partially
+    rebuilt snapshot: all hypotheses hold (`cfg_rebuildOK`, `cfg_modelFrame`, `cfg_refreshOK`). -/
+theorem cfg_converges :
+    Quiescent cfgFinal ∧ cfgFinal.conn () = true ∧
+    ∀ p t, cfgFinal.conn p = true → cfgFinal.held p t = cfgGen (exBuild cfgFinal.world) p t := by
+  have hq : Quiescent cfgFinal := ⟨rfl, rfl, fun _ => rfl, fun _ => rfl⟩
+  exact ⟨hq, rfl,
+    convergence_model_refresh exRoot exAtt cfgView cfgGen exBuild cfgRebuild cfg_rebuildOK cfg_modelFrame
+      cfg_refreshOK exW0 exH0 cfgHist cfgHist_carries hq⟩
+
+/-- The values along the history: 4 after the first change; 0 once the service is out of scope;
+    STILL 0 after its second change (skipped); 9 - the current content, although the change that
+    produced it was never pushed to this proxy - once it is imported again. -/
+theorem cfg_held_value :
+    (cfgAt 5).held () .cds = 4 ∧ (cfgAt 9).held () .cds = 0 ∧ (cfgAt 13).held () .cds = 0 ∧
+    cfgFinal.held () .cds = 9 := by decide
+
+/-- The decisions along the history: the Sidecar change that drops the import is pushed for CDS
+    (the previous scope holds the service), the change of the out-of-scope service is SKIPPED for
+    every type, the Sidecar change that restores the import is pushed. -/
+theorem cfg_decisions :
+    (∃ r, (cfgAt 8).infl () = some r ∧ r.keys = [scKey] ∧
+      modelDecV2R exRoot exAtt cfgView () .cds ((cfgAt 8).last ()) r = true) ∧
+    (∃ r, (cfgAt 12).infl () = some r ∧ r.keys = [se2Key] ∧
+      ∀ t ∈ XType.all, modelDecV2R exRoot exAtt cfgView () t ((cfgAt 12).last ()) r = false) ∧
+    (∃ r, (cfgAt 16).infl () = some r ∧ r.keys = [scKey] ∧
+      modelDecV2R exRoot exAtt cfgView () .cds ((cfgAt 16).last ()) r = true) := by
+  refine ⟨⟨_, rfl, rfl, ?_⟩, ⟨_, rfl, rfl, ?_⟩, ⟨_, rfl, rfl, ?_⟩⟩ <;> decide
 
 end IstioModel.C01.InstantiationExample
